@@ -58,8 +58,11 @@ let script_of site dup atts tail watch =
          Stdlib.String.iteri (fun i ch ->
              if !ok then begin
                if i = 3 then act true a2;
-               emit (Model.SEv (Model.EStep (ch = '1')));
-               if ch <> '1' then ok := false end) steps
+               (* '3' at the last stage: accepted like '1' (closing the allocation will report an error later,
+                  which changes nothing about what must be released) *)
+               let good = (ch = '1' || (i = 3 && ch = '3')) in
+               emit (Model.SEv (Model.EStep good));
+               if not good then ok := false end) steps
        | _ -> act false a1);
       if !ok then begin
         if site = 2 then act true a2;
